@@ -288,3 +288,16 @@ func Encrypt(plaintext []byte, o EncryptOpts) ([]byte, error) {
 	}
 	return doc.Bytes(), nil
 }
+
+// SealSegment seals one plaintext chunk as stored segment number i (README: AEAD under the payload key and
+// nonce_prefix || BE32(i) || last flag, ciphertext || tag).
+func SealSegment(cph int, fk, np []byte, i uint32, last bool, chunk []byte) ([]byte, error) {
+	a, err := aead(cph, PayloadKey(fk, np))
+	if err != nil {
+		return nil, err
+	}
+	return a.Seal(nil, Nonce(np, i, last), chunk, nil), nil
+}
+
+// BoundaryCounters are the segment numbers around the byte boundaries of the 32-bit counter.
+var BoundaryCounters = []uint32{0, 1, 255, 256, 65535, 65536, 1<<24 - 1, 1 << 24, 1<<24 + 1, 1 << 31, 1<<32 - 2, 1<<32 - 1}
